@@ -17,7 +17,7 @@ independent oracle that evaluates the property on the implementation's own outpu
 No file of /repo is touched: all instrumentation is instance-attribute wrapping at run time."""
 import bisect, contextlib, io, math, os, warnings
 import numpy as np
-import vlib
+import vlib, kwnfull
 from vlib import Result, enc_list, f2b, Toks, close
 
 PROP = 'C13'
@@ -27,7 +27,7 @@ META = {
     'technique': 'Lean 4 proof over ordered fields (state machines, induction over call histories) + op-sequence correspondence + trace refinement of real runs',
     'design_ref': 'DESIGN.md section 6, C13',
 }
-LEAN_MODULES = ['KawinV.Props.C13']
+LEAN_MODULES = ['KawinV.Props.C13', 'KawinV.Props.KWNFull']
 MONITORED = [
     'mass balance of a slice reads the table before _growthRateBinary refreshes it (table lag of one step; histogram key massbalance-table-beyond-threshold)',
     'recorded xEqAlpha lies between independent evaluations at T-maxTempChange and T+maxTempChange (monotone solubility; sampled slices)',
@@ -1164,6 +1164,10 @@ def corr(ctx, oracle_only=False, scale=1.0):
             c['container'] = 'f64'        # one pair of float64 ndarrays shared by the constructor model and the setter model
         vlib.guarded(res, 'paired-run-' + k, {x: c[x] for x in c if x != 'via'}, check_pair, ctx, res, c)
     res.sample({'run': {k: cases[0][k] for k in ('kind', 'spec', 'solver', 'mode', 'maxTC', 'n')}})
+    # the COMPOSED step (KWNFull.eulerStep, theorems eulerStep_fresh / runSteps_fresh): non-isothermal real runs replayed step by step
+    # with the captured table rebuilds; lookup temperature, tables and the recorded temperature must be the implementation's
+    if not oracle_only:
+        kwnfull.refine_scenarios(ctx, res, PROP, [('alzr-noniso', ctx.n(22, 70)), ('alzr-slow-ramp', ctx.n(22, 70))])
     vlib.finish_guard(res)      # harness errors are re-raised only when the run found no violation
     return res
 
